@@ -1,5 +1,5 @@
 (* Props/C10.v — cw4-stake: stakes are fully backed, weight follows stake, exit only after delay. *)
-Require Import CwPlus.Params CwPlus.Base CwPlus.AMap CwPlus.Cw4Model CwPlus.Cw4Snap CwPlus.Cw4Lemmas.
+Require Import CwPlus.Params CwPlus.Base CwPlus.AMap CwPlus.Cw4Model CwPlus.Cw4Snap CwPlus.Cw4Lemmas CwPlus.Cw4Check CwPlus.Cw4Lemmas2.
 Open Scope N_scope.
 
 (* over every history from every instantiation (honest staking token: it calls Receive only from
@@ -58,6 +58,39 @@ Theorem c10_weight_meaning : forall c s w, calc_weight c s = Ok (Some w) ->
   w <= u64max /\ c_tpw c <> 0 /\ w = s / c_tpw c /\ c_min_bond c <= s.
 Proof. exact calc_weight_u64. Qed.
 
+(* "Claim pays exactly the user's matured claims, once", over every history and for every user: what the
+   contract has paid to a, plus what a can still claim, is exactly what a has unbonded in accepted calls
+   (from an instantiation; from any state: plus the claims a started with).  So no claim is ever paid
+   twice, paid to anybody else, or dropped unpaid *)
+Theorem c10_claims_ledger : forall a cs st,
+  paid_total a st cs + sum_claims (get_claims (run st cs) a) = sum_claims (get_claims st a) + unbonded_total a st cs.
+Proof. exact claims_ledger. Qed.
+Theorem c10_claims_ledger_from_instantiate : forall m blk st a cs, instantiate m blk = Ok st ->
+  paid_total a st cs + sum_claims (get_claims (run st cs) a) = unbonded_total a st cs.
+Proof. exact claims_ledger_from_instantiate. Qed.
+(* the step contract S_C10 that every run evaluates on the implementation, clauses 4..12 (which operation may
+   pay; whose stake and claims move, by how much, with which release time; what holdings do; what a refused
+   call leaves behind), never fires on the model's own transaction, accepted or refused, whenever the
+   observations are the model's stakes, claims and holdings.  Partial: clauses 1..3 are state predicates
+   (backing, exact backing, weight = calc_weight(stake)); for those the history theorems c10_backed and
+   c10_weight above are the model-side statement, not a per-step contract lemma *)
+Theorem c10_contract_ops_never_fire_on_model_partial : forall npool pure pre post st blk sender o dok st' ms,
+  stake_obs pre st -> stake_obs post st' -> honest_call (cfg st) (blk, sender, o, dok) -> tx st blk sender o dok = (st', true, ms) ->
+  s_c10 (cfg st) npool pure pre post blk sender o true true ms < 4.
+Proof. exact s_c10_ops_sound_partial. Qed.
+Theorem c10_contract_never_fires_on_refusal_partial : forall npool pure pre post st blk sender o hok ms,
+  stake_obs pre st -> stake_obs post st -> pay_part ms = [] ->
+  s_c10 (cfg st) npool pure pre post blk sender o hok false ms < 4.
+Proof. exact s_c10_refused_sound_partial. Qed.
+
+Example c10_ledger_example :
+  exists st, instantiate (mkInit true None [] (mkCfg (Native 0) 10 0 (DHeight 5))) (mkBlock 10 0) = Ok st /\
+    let cs := [(mkBlock 11 0, 1, Bond [(0, 95)], true); (mkBlock 12 0, 1, Unbond 30, true);
+               (mkBlock 13 0, 1, Unbond 20, true); (mkBlock 17 0, 1, Claim, true); (mkBlock 17 0, 1, Claim, true);
+               (mkBlock 18 0, 2, Claim, true)] in
+    (paid_total 1 st cs, sum_claims (get_claims (run st cs) 1), unbonded_total 1 st cs, paid_total 2 st cs) = (30, 20, 50, 0).
+Proof. eexists. split; [reflexivity|]. vm_compute. reflexivity. Qed.
+
 Example c10_nonvacuous :
   exists st, instantiate (mkInit true None [] (mkCfg (Native 0) 10 0 (DHeight 5))) (mkBlock 10 0) = Ok st /\
     let cs := [(mkBlock 11 0, 1, Bond [(0, 95)], true); (mkBlock 12 0, 1, Unbond 30, true);
@@ -72,3 +105,7 @@ Print Assumptions c10_stake_ops.
 Print Assumptions c10_delay.
 Print Assumptions c10_weight.
 Print Assumptions c10_weight_meaning.
+Print Assumptions c10_claims_ledger.
+Print Assumptions c10_claims_ledger_from_instantiate.
+Print Assumptions c10_contract_ops_never_fire_on_model_partial.
+Print Assumptions c10_contract_never_fires_on_refusal_partial.
